@@ -1,1 +1,234 @@
-//! (to be written)
+//! Message well-formedness exactly as property C12 words it (RFC 9114 sections 4.1.2, 4.2,
+//! 4.3), and the field-section size rule of section 4.2.2.
+//!
+//! The predicate is three-valued: `Malformed` (the property demands refusal), `WellFormed`
+//! (the property permits delivery), `Unspecified` (the property's list does not decide: e.g.
+//! a pseudo-header field after a regular field, a repeated pseudo-header field, `:status` in a
+//! request, pseudo-header fields in trailers, an unknown `:protocol` token).
+
+pub type Field = (Vec<u8>, Vec<u8>);
+
+#[derive(Debug, Clone, Copy, PartialEq, Eq, PartialOrd, Ord)]
+pub enum Class {
+    WellFormed,
+    Unspecified,
+    Malformed,
+}
+
+#[derive(Debug, Clone, PartialEq, Eq)]
+pub struct Verdict {
+    pub class: Class,
+    /// first reason for the class (for messages and signatures)
+    pub why: &'static str,
+}
+
+fn worst(v: &mut Verdict, class: Class, why: &'static str) {
+    if class > v.class {
+        v.class = class;
+        v.why = why;
+    }
+}
+
+pub fn is_tchar(b: u8) -> bool {
+    b.is_ascii_alphanumeric() || b"!#$%&'*+-.^_`|~".contains(&b)
+}
+
+/// RFC 9110 5.1 token, all lowercase (RFC 9114 4.2)
+pub fn is_lowercase_token(name: &[u8]) -> bool {
+    !name.is_empty() && name.iter().all(|&b| is_tchar(b) && !b.is_ascii_uppercase())
+}
+
+fn is_token(v: &[u8]) -> bool {
+    !v.is_empty() && v.iter().all(|&b| is_tchar(b))
+}
+
+fn is_scheme(v: &[u8]) -> bool {
+    // RFC 3986: ALPHA *( ALPHA / DIGIT / "+" / "-" / "." )
+    !v.is_empty() && v[0].is_ascii_alphabetic() && v.iter().all(|&b| b.is_ascii_alphanumeric() || b"+-.".contains(&b))
+}
+
+fn is_authority(v: &[u8]) -> bool {
+    // deliberately permissive: non-empty, visible ASCII without the delimiters that end an authority
+    !v.is_empty() && v.iter().all(|&b| b > 0x20 && b < 0x7f && !b"/?#\\\"<>^`{|}".contains(&b))
+}
+
+fn is_path(v: &[u8]) -> bool {
+    v.iter().all(|&b| b > 0x20 && b < 0x7f && !b"\"<>\\^`{|}#".contains(&b))
+}
+
+fn is_status(v: &[u8]) -> bool {
+    v.len() == 3 && v.iter().all(|b| b.is_ascii_digit()) && v[0] >= b'1'
+}
+
+fn check_value(v: &mut Verdict, value: &[u8]) {
+    for &b in value {
+        if b == b'\r' || b == b'\n' || b == 0 {
+            worst(v, Class::Malformed, "value-contains-cr-lf-nul");
+        } else if (b < 0x20 && b != b'\t') || b == 0x7f {
+            worst(v, Class::Unspecified, "value-contains-other-control");
+        }
+    }
+}
+
+#[derive(Debug, Clone, Copy, PartialEq, Eq)]
+pub enum Kind {
+    Request,
+    Response,
+    Trailers,
+}
+
+pub fn judge(fields: &[Field], kind: Kind) -> Verdict {
+    let mut v = Verdict { class: Class::WellFormed, why: "well-formed" };
+    let mut seen_regular = false;
+    let mut pseudo_seen: Vec<&[u8]> = Vec::new();
+    let mut method = None;
+    let mut authority: Option<&[u8]> = None;
+    let mut host: Option<&[u8]> = None;
+    let mut status = None;
+    for (name, value) in fields {
+        if name.is_empty() {
+            worst(&mut v, Class::Malformed, "empty-name");
+            continue;
+        }
+        if name[0] == b':' {
+            if seen_regular {
+                worst(&mut v, Class::Unspecified, "pseudo-after-regular");
+            }
+            if pseudo_seen.contains(&&name[..]) {
+                worst(&mut v, Class::Unspecified, "pseudo-repeated");
+            }
+            pseudo_seen.push(name);
+            if kind == Kind::Trailers {
+                worst(&mut v, Class::Unspecified, "pseudo-in-trailers");
+            }
+            match &name[..] {
+                b":method" => {
+                    if !is_token(value) {
+                        worst(&mut v, Class::Malformed, "method-unparseable");
+                    }
+                    method = Some(value);
+                    if kind == Kind::Response {
+                        worst(&mut v, Class::Unspecified, "request-pseudo-in-response");
+                    }
+                }
+                b":scheme" => {
+                    if !is_scheme(value) {
+                        worst(&mut v, Class::Malformed, "scheme-unparseable");
+                    }
+                    if kind == Kind::Response {
+                        worst(&mut v, Class::Unspecified, "request-pseudo-in-response");
+                    }
+                }
+                b":authority" => {
+                    if value.is_empty() {
+                        worst(&mut v, Class::Malformed, "authority-empty");
+                    } else if !is_authority(value) {
+                        worst(&mut v, Class::Malformed, "authority-unparseable");
+                    }
+                    authority = Some(value);
+                    if kind == Kind::Response {
+                        worst(&mut v, Class::Unspecified, "request-pseudo-in-response");
+                    }
+                }
+                b":path" => {
+                    if value.is_empty() {
+                        worst(&mut v, Class::Unspecified, "path-empty");
+                    } else if !is_path(value) {
+                        worst(&mut v, Class::Malformed, "path-unparseable");
+                    }
+                    if kind == Kind::Response {
+                        worst(&mut v, Class::Unspecified, "request-pseudo-in-response");
+                    }
+                }
+                b":status" => {
+                    if !is_status(value) {
+                        worst(&mut v, Class::Malformed, "status-unparseable");
+                    }
+                    status = Some(value);
+                    if kind == Kind::Request {
+                        worst(&mut v, Class::Unspecified, "status-in-request");
+                    }
+                }
+                b":protocol" => {
+                    if !is_token(value) {
+                        worst(&mut v, Class::Malformed, "protocol-unparseable");
+                    } else if !matches!(&value[..], b"webtransport" | b"connect-udp" | b"connect-ip" | b"websocket") {
+                        worst(&mut v, Class::Unspecified, "protocol-unknown-token");
+                    }
+                    if kind == Kind::Response {
+                        worst(&mut v, Class::Unspecified, "request-pseudo-in-response");
+                    }
+                }
+                _ => worst(&mut v, Class::Malformed, "undefined-pseudo-header"),
+            }
+        } else {
+            seen_regular = true;
+            if name.iter().any(|b| b.is_ascii_uppercase()) {
+                worst(&mut v, Class::Malformed, "uppercase-name");
+            } else if !is_lowercase_token(name) {
+                worst(&mut v, Class::Malformed, "name-not-a-token");
+            }
+            check_value(&mut v, value);
+            if &name[..] == b"host" {
+                if host.is_some() {
+                    worst(&mut v, Class::Unspecified, "host-repeated");
+                }
+                host = Some(value);
+            }
+        }
+    }
+    match kind {
+        Kind::Request => {
+            if method.is_none() {
+                worst(&mut v, Class::Malformed, "method-missing");
+            }
+            match (authority, host) {
+                (None, None) => worst(&mut v, Class::Malformed, "authority-missing"),
+                (Some(a), Some(h)) if a != h => worst(&mut v, Class::Malformed, "authority-host-differ"),
+                (None, Some(h)) if h.is_empty() => worst(&mut v, Class::Malformed, "authority-empty"),
+                (None, Some(h)) if !is_authority(h) => worst(&mut v, Class::Unspecified, "host-unparseable"),
+                _ => {}
+            }
+        }
+        Kind::Response => {
+            if status.is_none() {
+                worst(&mut v, Class::Malformed, "status-missing");
+            }
+        }
+        Kind::Trailers => {}
+    }
+    v
+}
+
+/// RFC 9114 4.2.2: "The size of a field list is calculated based on the uncompressed size of
+/// fields, including the length of the name and value in bytes plus an overhead of 32 bytes for
+/// each field."
+pub fn section_size(fields: &[Field]) -> u64 {
+    fields.iter().map(|(n, v)| n.len() as u64 + v.len() as u64 + 32).sum()
+}
+
+#[cfg(test)]
+mod tests {
+    use super::*;
+    fn f(n: &str, v: &str) -> Field {
+        (n.as_bytes().to_vec(), v.as_bytes().to_vec())
+    }
+    #[test]
+    fn classes() {
+        let ok = vec![f(":method", "GET"), f(":scheme", "https"), f(":authority", "a.example"), f(":path", "/"), f("x", "y")];
+        assert_eq!(judge(&ok, Kind::Request).class, Class::WellFormed);
+        let mut m = ok.clone();
+        m.push(f("Upper", "v"));
+        assert_eq!(judge(&m, Kind::Request).why, "uppercase-name");
+        let mut m = ok.clone();
+        m.push(f("host", "other"));
+        assert_eq!(judge(&m, Kind::Request).why, "authority-host-differ");
+        assert_eq!(judge(&ok[1..], Kind::Request).why, "method-missing");
+        assert_eq!(judge(&[f(":method", "GET"), f(":path", "/")], Kind::Request).why, "authority-missing");
+        assert_eq!(judge(&[f(":status", "200")], Kind::Response).class, Class::WellFormed);
+        assert_eq!(judge(&[f("x", "y")], Kind::Response).why, "status-missing");
+        assert_eq!(judge(&[f("x", "a\rb")], Kind::Trailers).class, Class::Malformed);
+        assert_eq!(judge(&[f(":x", "1"), f(":status", "200")], Kind::Response).why, "undefined-pseudo-header");
+        assert_eq!(section_size(&ok), (7 + 3 + 32) + (7 + 5 + 32) + (10 + 9 + 32) + (5 + 1 + 32) + (1 + 1 + 32));
+    }
+}
